@@ -1872,6 +1872,7 @@ theorem startAuthenticate_wf (K : Crypto) (question secret : Bytes) (s : MState)
   unfold startAuthenticate
   simp only [wp_bind, wp_getc]
   wp_exec
+  all_goals first | exact h | skip
   all_goals
     refine wp_mono _ _ _ _ _ _ (startAuthenticateExpect1_wf K _ _ _ ?_) ?_ (fun _ h => h)
     · first
@@ -2508,6 +2509,7 @@ theorem startAuthenticate_nw (K : Crypto) (question secret : Bytes) (s : MState)
   unfold startAuthenticate
   simp only [wp_bind, wp_getc]
   wp_exec
+  all_goals first | exact h | exact h.1 _ | exact h.2 _ | skip
   all_goals
     refine wp_mono _ _ _ _ _ _ (startAuthenticateExpect1_nw K _ _ _ ?_) ?_ (fun _ h => h)
     · first
